@@ -33,7 +33,11 @@ def main():
     tmp = tempfile.mkdtemp(prefix="verif-seed-")
     wt = os.path.join(tmp, "repo")
     out = {"property": pid, "tier": tier}
-    sh(["git", "-C", "/repo", "worktree", "add", "--detach", "-q", wt, "HEAD"])
+    # a change whose effect a later repair of /repo made unobservable is kept with the tree it was written for ("base" in its meta)
+    base = "HEAD"
+    if "--base" in sys.argv:
+        base = sys.argv[sys.argv.index("--base") + 1]
+    sh(["git", "-C", "/repo", "worktree", "add", "--detach", "-q", wt, base])
     env = dict(os.environ, PYTHONPATH=wt, PYTHONDONTWRITEBYTECODE="1")
     try:
         demo = os.path.join(src, "demo.py")
